@@ -39,3 +39,21 @@ Proof. unfold src_ipk_conffiles. rewrite collected_is_model. apply concat_sep_nl
 
 Lemma list_fns_translated : src_deb_conffiles_translated && src_ipk_conffiles_translated = true.
 Proof. reflexivity. Qed.
+
+(* ---- archlinux: the backup values as translated are the model's list ---- *)
+From NfpmV Require Import Gen.BackupFn.
+
+Lemma filter_ext_c (f g : content -> bool) (l : list content) : (forall c, f c = g c) -> filter f l = filter g l.
+Proof. intros H. induction l as [|x l IH]; cbn [filter]; [reflexivity|]. rewrite H, IH. reflexivity. Qed.
+
+Theorem src_arch_backups_is_model cs : src_arch_backups cs = backups_model cs.
+Proof.
+  unfold src_arch_backups, backups_model. rewrite flat_map_if_filter_map.
+  rewrite (filter_ext_c _ (fun c => is_config_typ (c_typ c))).
+  - apply map_ext_in_iff. intros c _. apply src_AsRelativePath_is_model.
+  - intros c. unfold is_config_typ, typ_in, TConfig, TConfigNoReplace, TConfigMissingOK. cbn [existsb].
+    destruct (seqb (c_typ c) (B "config")), (seqb (c_typ c) (B "config|noreplace")), (seqb (c_typ c) (B "config|missingok")); reflexivity.
+Qed.
+
+Lemma backups_translated : src_arch_backups_translated && seqb src_arch_backup_key (B "backup") = true.
+Proof. reflexivity. Qed.
